@@ -6,11 +6,14 @@ from c01 import BridgeBase
 class C15(BridgeBase):
     pid = "C15"
     prefixes = ("C15.",)
+    quick_cap = 12000
     mc = [("SkywayBridge_mc", "SkywayBridge_limits", ("quick", "thorough"))]
     gens = [Gen("SkywayBridgeGen", "SkywayBridgeGen_limits_cover", "bfs", tiers=("quick", "thorough"), timeout=600),
             Gen("SkywayBridgeGen", "SkywayBridgeGen_limits_sim", "simulate", num=300, depth=12, tiers=("quick",)),
-            Gen("SkywayBridgeGen", "SkywayBridgeGen_limits_sim", "simulate", num=3000, depth=12, tiers=("thorough",)),
-            Gen("SkywayBridgeGen", "SkywayBridgeGen_funds_sim", "simulate", num=300, depth=12, tiers=("quick", "thorough"))]
+            Gen("SkywayBridgeGen", "SkywayBridgeGen_limits_sim", "simulate", num=3000, depth=12, tiers=("thorough",))
+]
+    # users start with 12 units so that a single transfer can exceed a limit of 3 or 5 without running out of funds
+    drive_env = {"VERIF_INITBAL": "12"}
 
     def nontrivial(self, evs):
         return sum(1 for e in evs if e["act"] == "Send" and e.get("res") == "ok") >= 2
